@@ -7,6 +7,7 @@
 #include <xercesc/framework/XMLPScanToken.hpp>
 #include <xercesc/validators/common/Grammar.hpp>
 #include <xercesc/framework/XMLGrammarDescription.hpp>
+#include <xercesc/util/SecurityManager.hpp>
 using namespace xv;
 
 // ------------------------------------------------------------------------------------------ document pool
@@ -59,6 +60,8 @@ struct Box {
     virtual void useCached(bool) = 0;
     virtual void resetDocPool() {}
     virtual void resetGrammarPool() = 0;
+    SecurityManager sec;
+    virtual void setSecLimit(unsigned n) = 0;   // installs a SecurityManager ONCE (setSecurityManager itself resets the scanner's counters)
     virtual bool adopt() { return false; }
     void releaseAdopted() { for (auto& a : adopted) a.first->release(); adopted.clear(); }
 };
@@ -104,6 +107,10 @@ template <class P, bool IsDom> struct BoxT : public Box {
     bool loadGrammar(const std::string& path, bool schema, bool cache) override {
         ParseResult r; apply(r, 0);
         try { return p.loadGrammar(X16(path).p(), schema ? Grammar::SchemaGrammarType : Grammar::DTDGrammarType, cache) != 0; } catch (...) { return false; }
+    }
+    void setSecLimit(unsigned n) override {
+        if (appliedScanner != cfg.scanner) { p.useScanner(X16(ScnName[cfg.scanner]).p()); appliedScanner = cfg.scanner; }
+        sec.setEntityExpansionLimit(n); p.setSecurityManager(&sec);
     }
     void cacheFromParse(bool b) override { p.cacheGrammarFromParse(b); }
     void useCached(bool b) override { p.useCachedGrammarInParse(b); }
@@ -167,6 +174,10 @@ struct BoxSax2 : public Box {
     bool loadGrammar(const std::string& path, bool schema, bool cache) override {
         ParseResult r; apply(r, 0);
         try { return p->loadGrammar(X16(path).p(), schema ? Grammar::SchemaGrammarType : Grammar::DTDGrammarType, cache) != 0; } catch (...) { return false; }
+    }
+    void setSecLimit(unsigned n) override {
+        if (appliedScanner != cfg.scanner) { p->setProperty(XMLUni::fgXercesScannerName, (void*)X16(ScnName[cfg.scanner]).p()); appliedScanner = cfg.scanner; }
+        sec.setEntityExpansionLimit(n); p->setProperty(XMLUni::fgXercesSecurityManager, &sec);
     }
     void cacheFromParse(bool b) override { p->setFeature(XMLUni::fgXercesCacheGrammarFromParse, b); }
     void useCached(bool b) override { p->setFeature(XMLUni::fgXercesUseCachedGrammarInParse, b); }
@@ -599,6 +610,59 @@ static void run_toggle(uint64_t idx, Ctx& c) {
     if (idx % 997 == 0) c.sample("{\"history\":" + jstr(tog_str(t)) + "}");
 }
 
+// ------------------------------------------------------------------------------------------ entity-expansion accounting across parses
+// One SecurityManager (limit 4) installed once; every sequence of <= depth parses of documents with 0..5 entity expansions on one parser, then a final
+// parse: the expansion count belongs to a parse, not to the parser - the outcome (incl. the limit error and where it strikes) must equal a fresh parser's.
+static std::vector<HDoc> EDOCS;
+static void init_exp_docs() {
+    const std::string D = "<!DOCTYPE r [<!ENTITY a 'x'><!ENTITY b '&a;&a;'><!ENTITY % p '<!ENTITY c \"y\">'>%p;<!ATTLIST r k CDATA 'd&a;'>]>";
+    EDOCS = {
+        {"three-in-content", D + "<r>&a;&a;&a;</r>"},
+        {"nested-three", D + "<r>&b;</r>"},
+        {"two-in-attribute", D + "<r k='&a;&a;'>t</r>"},
+        {"four-at-the-limit", D + "<r>&a;&b;</r>"},
+        {"five-over-the-limit", D + "<r>&b;&b;</r>"},
+        {"none", D + "<r>t</r>"},
+        {"no-doctype", "<r>&amp;&lt;&amp;&lt;&amp;</r>"},
+        {"abandoned-after-two", D + "<r>&a;&a;<"},
+    };
+}
+static int g_edepth = 2;
+struct ECase { int api, scanner, fin; std::vector<int> ops; };
+static ECase exp_case(uint64_t idx) {
+    ECase e; uint64_t nw = words_upto(EDOCS.size(), g_edepth);
+    e.ops = word_at(idx % nw, EDOCS.size(), g_edepth); idx /= nw;
+    e.fin = (int)(idx % EDOCS.size()); idx /= EDOCS.size();
+    e.scanner = (int)(idx % 4); idx /= 4;
+    e.api = (int)idx;
+    return e;
+}
+static std::string exp_str(const ECase& e) {
+    std::string s = std::string(BoxName[e.api]) + "/" + ScnName[e.scanner] + " SecurityManager(limit 4): ";
+    for (int o : e.ops) s += "parse(" + EDOCS[o].name + "); ";
+    return s + "parse(" + EDOCS[e.fin].name + ")";
+}
+static void run_explimit(uint64_t idx, Ctx& c) {
+    ECase e = exp_case(idx);
+    g_vfs->clear(); put_files(); init_exp_docs();
+    Config cfg; cfg.ns = true; cfg.val = 0; cfg.schema = false; cfg.scanner = e.scanner;
+    std::unique_ptr<Box> used(make_box(e.api)); used->cfg = cfg; used->setSecLimit(4);
+    for (int o : e.ops) used->parse(EDOCS[o].bytes, 0);
+    ParseResult ru = used->parse(EDOCS[e.fin].bytes, 0);
+    std::unique_ptr<Box> fresh(make_box(e.api)); fresh->cfg = cfg; fresh->setSecLimit(4);
+    ParseResult rf = fresh->parse(EDOCS[e.fin].bytes, 0);
+    c.count("parses", 2 + e.ops.size());
+    std::string x = cache_view(rf), y = cache_view(ru);
+    if (x != y) {
+        size_t i = 0; while (i < x.size() && i < y.size() && x[i] == y[i]) i++;
+        size_t ls = x.rfind('\n', i); ls = ls == std::string::npos ? 0 : ls + 1;
+        c.violation("history-dependent-result", "\"history\":" + jstr(exp_str(e)) + ",\"expected\":" + jstr(x.substr(ls, 200)) + ",\"observed\":" + jstr(y.substr(ls, 200)));
+    }
+    if (rf.fatals) c.count("final_hits_limit_or_fatal"); else c.count("final_clean");
+    c.count("expansion_limit_histories");
+    if (idx % 997 == 0) c.sample("{\"history\":" + jstr(exp_str(e)) + "}");
+}
+
 int main(int argc, char** argv) {
     Args a(argc, argv);
     std::string space = a.str("space", "hist");
@@ -635,6 +699,13 @@ int main(int argc, char** argv) {
         R.fn = run_toggle;
         R.describe = [](uint64_t i) { return "{\"history\":" + jstr(tog_str(tog_case(i))) + "}"; };
         R.extra_json = "\"alphabet\":" + std::to_string(NTOG) + ",\"depth\":" + std::to_string(g_tdepth);
+    } else if (space == "explimit") {
+        g_vfs->clear(); init_exp_docs();
+        g_edepth = (int)a.num("depth", 2);
+        R.total = words_upto(EDOCS.size(), g_edepth) * EDOCS.size() * 4 * 3;
+        R.fn = run_explimit;
+        R.describe = [](uint64_t i) { return "{\"history\":" + jstr(exp_str(exp_case(i))) + "}"; };
+        R.extra_json = "\"documents\":" + std::to_string(EDOCS.size()) + ",\"depth\":" + std::to_string(g_edepth);
     } else if (space == "cache") {
         R.total = 5 * 4 * 4 * 3;
         R.fn = run_cache;
